@@ -136,10 +136,20 @@ int MPI_Allreduce(const void *sendbuf, void *recvbuf, int count, MPI_Datatype da
 }
 int MPI_Bcast(void *buffer, int count, MPI_Datatype datatype, int root, MPI_Comm comm)
 {
+    int idx = g_coll_n;
     coll(COLL_BCAST);
-    if (g_rank != root && count > 0) {
-        long long nb = (long long)count * type_size(datatype);
+    long long sz = type_size(datatype);
+    if (count == 1 && (sz == 4 || sz == 8) && predefined_size(datatype) >= 0 && idx < G_COLL_MAX) {
+        /* a scalar: every rank ends with the agreed value of this collective, which is the root's */
+        if (g_rank == root || g_nprocs == 1) __CPROVER_assume(g_agreed_ll[idx] == get_ll(buffer, datatype, 0));
+        else put_ll(buffer, datatype, 0, g_agreed_ll[idx]);
+        if (sz == 4) __CPROVER_assume(g_agreed_ll[idx] >= -2147483647 - 1 && g_agreed_ll[idx] <= 2147483647);
+    }
+    else if (g_rank != root && g_nprocs > 1 && count > 0) {
+        long long nb = (long long)count * sz;
         if (nb > 0) __CPROVER_havoc_slice(buffer, nb);
+        /* a character buffer broadcast by the library is a NUL-terminated string of count bytes */
+        if (datatype == MPI_CHAR) ((char *)buffer)[count - 1] = 0;
     }
     return MPI_SUCCESS;
 }
